@@ -267,6 +267,29 @@ def run(pid, tier, seed, update_lock=False, verbose=False, only=None):
                         json.dump(dict(property=pid, obligation='native-sweep', native=r), fh, indent=1, default=str)
                     violations.append('VIOLATION property=%s replay=%s obligation=native-runtime-contract-sweep' % (pid, fn))
         replay.cleanup_scratch()
+    selftest = None
+    if tier == 'thorough' and repo_root() == '/repo' and not only and not os.environ.get('BSVC_NO_SELFTEST'):
+        # engine self-test for this property: registered source mutants / seeded changes must be refuted, neutral edits must hold
+        try:
+            import importlib.util
+            spec_ = importlib.util.spec_from_file_location('bsvc_selftest', os.path.join(ROOT, 'tools', 'selftest.py'))
+            st = importlib.util.module_from_spec(spec_)
+            spec_.loader.exec_module(st)
+            rows = []
+            env_keep = os.environ.get('BSVC_NO_SELFTEST')
+            os.environ['BSVC_NO_SELFTEST'] = '1'
+            try:
+                for e in st.entries(pid, True):
+                    rows.append(st.one(e))
+            finally:
+                if env_keep is None:
+                    os.environ.pop('BSVC_NO_SELFTEST', None)
+            selftest = dict(entries=len(rows), as_expected=sum(1 for r in rows if r['ok']), skipped=sum(1 for r in rows if r['ok'] is None),
+                            mismatches=[r for r in rows if r['ok'] is False], rows=rows)
+            for r in selftest['mismatches']:
+                errors.append('engine self-test: %s expected %s, got %s' % (r['id'], r.get('expect'), r['got']))
+        except Exception as e:
+            selftest = dict(error=str(e))
     wall = time.time() - t0
     trusted = list(getattr(pm, 'TRUSTED', []))
     trusted += ['bsvc VC generator and encoding (DESIGN 3.3)', 'SMT back ends z3 5.1.0 (in-process), z3 4.8.12, cvc5 1.0.3']
@@ -289,6 +312,7 @@ def run(pid, tier, seed, update_lock=False, verbose=False, only=None):
             undecided=undecided, outside_subset=[u for u in undecided if 'outside-subset' in u],
             dropped_by_extraction=dict(rules=DROPPED_BY_EXTRACTION, measured_calls_dropped=dropped),
             bounded=bounded,
+            engine_selftest=selftest,
             explanation=getattr(pm, 'EXPLANATION', ''),
             repo_root=repo_root(),
         ),
